@@ -168,6 +168,9 @@ def check_case(case):
         return f'construction raised {type(e).__name__}: {str(e)[:100]}'
     randomised = case['decoder'] in ('SweepMatchDecoder', 'RotatedSweepMatchDecoder')
     syns = [np.asarray(code.measure_syndrome(D.error_from(n, xs, zs))) for (xs, zs) in case['history']]
+    if case.get('syndrome_dtype'):
+        # the same syndromes held in another integer dtype (what `H @ e % 2` on int arrays gives a caller)
+        syns = [s_.astype(case['syndrome_dtype']) for s_ in syns]
     fresh_cache = {}
 
     def fresh(k):
@@ -304,7 +307,51 @@ def oracle_cases(ctx, deep):
                 cases.append({'decoder': dname, 'code': cname, 'size': list(size), 'code_deformation': cd,
                               'direction': list(d), 'noise_deformation': nd, 'p': p, 'kwargs': kw,
                               'history': hist, 'mode': 'sequence'})
+                if size == sizes[0] and cd is None:
+                    cases.append(dict(cases[-1], syndrome_dtype='int64'))
+    if deep:
+        cases += prefix_collision_cases(rng)
     return cases
+
+
+LARGE = [('Toric2DCode', (9, 9)), ('Planar2DCode', (9, 9)), ('RotatedPlanar2DCode', (12, 12))]
+
+
+def prefix_collision_cases(rng):
+    """deep search only: codes with more than 64 checks per sector and histories of syndromes that agree
+    with the zero syndrome (and with each other) on the first 8 / 16 / 32 / 64 checks of their sector --
+    the inputs on which a memo / hash / packed key of the syndrome that drops high-index checks makes a
+    reused decoder differ from a fresh one"""
+    from panqec.config import CODES, DECODERS
+    out = []
+    for cname, size in LARGE:
+        code = D.make_code(cname, size)
+        n = code.n
+        sector_pos = {}
+        for mask in (np.asarray(code.x_indices), np.asarray(code.z_indices)):
+            for k, i in enumerate(np.flatnonzero(mask)):
+                sector_pos[int(i)] = k
+        singles = []
+        for q in range(2 * n):
+            e = np.zeros(2 * n, dtype='uint8')
+            e[q] = 1
+            syn = np.flatnonzero(np.asarray(code.measure_syndrome(e)))
+            if len(syn):
+                singles.append((min(sector_pos[int(i)] for i in syn), D.supports(e, n)))
+        hist = [[[], []]]
+        for K in (64, 32, 16, 8):
+            pool = [sup for (m, sup) in singles if m >= K]
+            if pool:
+                idx = rng.choice(len(pool), min(3, len(pool)), replace=False)
+                hist += [pool[int(i)] for i in idx]
+        hist += [[[], []], hist[1]]
+        for dname in D.COMPLETE:
+            if cname not in (DECODERS[dname].allowed_codes or list(CODES)):
+                continue
+            kw = {'max_bp_iter': 10, 'osd_order': 0} if dname == 'BeliefPropagationOSDDecoder' else None
+            out.append({'decoder': dname, 'code': cname, 'size': list(size), 'direction': [0.25, 0.25, 0.5],
+                        'p': 0.0625, 'kwargs': kw, 'history': hist, 'mode': 'sequence'})
+    return out
 
 
 def n_calls(c):
